@@ -304,18 +304,20 @@ async def _assert_preconditions_async(
     preconditions: List[List[Contract]], resolved_kwargs: Mapping[str, Any]
 ) -> Optional[BaseException]:
     """Assert that the preconditions of an async function hold."""
-    exception = None  # type: Optional[BaseException]
+    # The error is created only for the violated contract of the last group: a violated group of weaker
+    # preconditions does not matter (and its error must not be created) if another group is satisfied.
+    violated_contract = None  # type: Optional[Contract]
 
     # Assert the preconditions in groups. This is necessary to implement "require else" logic when a class
     # weakens the preconditions of its base class.
 
     for group in preconditions:
-        exception = None
+        violated_contract = None
 
         for contract in group:
             assert (
-                exception is None
-            ), "No exception as long as pre-condition group is satisfiable."
+                violated_contract is None
+            ), "No violated contract as long as pre-condition group is satisfiable."
 
             condition_kwargs = select_condition_kwargs(
                 contract=contract, resolved_kwargs=resolved_kwargs
@@ -331,16 +333,19 @@ async def _assert_preconditions_async(
                     check = check_or_coroutine
 
             if not_check(check=check, contract=contract):
-                exception = _create_violation_error(
-                    contract=contract, resolved_kwargs=resolved_kwargs
-                )
+                violated_contract = contract
                 break
 
         # The group of preconditions was satisfied, no need to check the other groups.
-        if exception is None:
+        if violated_contract is None:
             break
 
-    return exception
+    if violated_contract is None:
+        return None
+
+    return _create_violation_error(
+        contract=violated_contract, resolved_kwargs=resolved_kwargs
+    )
 
 
 def _assert_preconditions(
@@ -349,18 +354,20 @@ def _assert_preconditions(
     func: CallableT,
 ) -> Optional[BaseException]:
     """Assert that the preconditions of a sync function hold."""
-    exception = None  # type: Optional[BaseException]
+    # The error is created only for the violated contract of the last group: a violated group of weaker
+    # preconditions does not matter (and its error must not be created) if another group is satisfied.
+    violated_contract = None  # type: Optional[Contract]
 
     # Assert the preconditions in groups. This is necessary to implement "require else" logic when a class
     # weakens the preconditions of its base class.
 
     for group in preconditions:
-        exception = None
+        violated_contract = None
 
         for contract in group:
             assert (
-                exception is None
-            ), "No exception as long as pre-condition group is satisfiable."
+                violated_contract is None
+            ), "No violated contract as long as pre-condition group is satisfiable."
 
             condition_kwargs = select_condition_kwargs(
                 contract=contract, resolved_kwargs=resolved_kwargs
@@ -383,16 +390,19 @@ def _assert_preconditions(
                 )
 
             if not_check(check=check, contract=contract):
-                exception = _create_violation_error(
-                    contract=contract, resolved_kwargs=resolved_kwargs
-                )
+                violated_contract = contract
                 break
 
         # The group of preconditions was satisfied, no need to check the other groups.
-        if exception is None:
+        if violated_contract is None:
             break
 
-    return exception
+    if violated_contract is None:
+        return None
+
+    return _create_violation_error(
+        contract=violated_contract, resolved_kwargs=resolved_kwargs
+    )
 
 
 async def _capture_old_async(
